@@ -435,6 +435,7 @@ func checkC13(c *Ctx) {
 
 	// ---- D2
 	c.c13Commit(m)
+	c.c13SameMailbox(m)
 	// ---- D3
 	c.c13Marks(m, decs)
 	// ---- D4 / D6
@@ -1686,4 +1687,114 @@ func (m *pop3Model) collectsMarked(hc *ssa.Call) string {
 		return "it appends nothing"
 	}
 	return ""
+}
+
+// c13SameMailbox: the snapshot and the commit name the same mailbox. The delete processor
+// removes from the mailbox held in a session field (C13/COMMIT requires that); the loader must
+// list that same mailbox — the name it passes to the store is a load of that field, or a value
+// stored into it before the call, at every call site that supplies it — and once the
+// snapshot exists the field is not written again.
+func (c *Ctx) c13SameMailbox(m *pop3Model) {
+	r, p := c.R, c.P
+	rule := "C13/COMMIT/same-mailbox"
+	r.Rule(rule, "the mailbox name every Store listing call of the session passes (GetMessages) is the session field RemoveMessage takes its mailbox from — loaded from it, or stored into it before the call, at every call site that supplies the name — and that field is written only in AUTHORIZATION state")
+	// the field the delete processor names the mailbox with
+	var fMb *types.Var
+	for _, fn := range m.fns {
+		fn := fn
+		eng.EachInstr(fn, func(in ssa.Instruction) {
+			ci, ok := in.(ssa.CallInstruction)
+			if !ok || !eng.IsCallTo(ci.Common(), m.rmObj) {
+				return
+			}
+			args := ci.Common().Args
+			if len(args) < 2 {
+				return
+			}
+			if f := m.loadedField(args[len(args)-2]); f != nil && fMb == nil {
+				fMb = f
+			}
+		})
+	}
+	if fMb == nil {
+		r.Undecided(rule, "mailbox-field", p.Pos(m.deleteProc.Pos()), "the session field RemoveMessage takes its mailbox from was not found")
+		return
+	}
+	listObj := p.MethodObj("pkg/storage", "Store", "GetMessages")
+	if listObj == nil {
+		return
+	}
+	holds := func(site ssa.Instruction, v ssa.Value) bool {
+		v = eng.StripConv(v)
+		if eng.SameField(eng.LoadedField(v), fMb) {
+			return true
+		}
+		ok := false
+		eng.EachInstr(site.Parent(), func(x ssa.Instruction) {
+			st, isSt := x.(*ssa.Store)
+			if !isSt || eng.StripConv(st.Val) != v {
+				return
+			}
+			if fa, isFA := st.Addr.(*ssa.FieldAddr); isFA && eng.SameField(eng.FieldOfAddr(fa), fMb) && eng.Dominates(x, site) {
+				ok = true
+			}
+		})
+		return ok
+	}
+	n := 0
+	ord := map[string]int{}
+	for _, fn := range m.fns {
+		fn := fn
+		eng.EachInstr(fn, func(in ssa.Instruction) {
+			ci, ok := in.(ssa.CallInstruction)
+			if !ok || !eng.IsCallTo(ci.Common(), listObj) {
+				return
+			}
+			args := ci.Common().Args
+			if len(args) < 1 {
+				return
+			}
+			n++
+			cons := siteCons(p, in, ord, "list")
+			if p.Lift(in, args[len(args)-1], 0, holds) {
+				r.Ok(rule, cons, p.InstrPos(in), "the listed mailbox is Session.%s, the one the delete processor removes from", fMb.Name())
+			} else {
+				r.Bad(rule, cons, p.InstrPos(in), "the mailbox listed here is not (at every call site that supplies the name) the session field %s that RemoveMessage addresses at QUIT: the session shows one mailbox and commits its deletions to another — the marked messages stay, or the messages with the same ids in another user's mailbox are removed", fMb.Name())
+			}
+		})
+	}
+	r.Floor(rule, "Store.GetMessages calls in pop3", n, 1)
+	// the name is fixed once the snapshot exists
+	auth := m.states["AUTHORIZATION"]
+	nW := 0
+	for _, fn := range m.fns {
+		fn := fn
+		eng.EachInstr(fn, func(in ssa.Instruction) {
+			st, ok := in.(*ssa.Store)
+			if !ok {
+				return
+			}
+			fa, ok := st.Addr.(*ssa.FieldAddr)
+			if !ok || !eng.SameField(eng.FieldOfAddr(fa), fMb) {
+				return
+			}
+			if _, fresh := fa.X.(*ssa.Alloc); fresh {
+				return
+			}
+			nW++
+			var bad []string
+			for _, cfg := range m.ts.ConfigsAt(in) {
+				if cfg.A != auth {
+					bad = append(bad, m.cfgStr(cfg))
+				}
+			}
+			cons := siteCons(p, in, ord, "write:"+fMb.Name())
+			if len(bad) > 0 {
+				r.Bad(rule, cons, p.InstrPos(in), "Session.%s is written in %v: the mailbox the deletions are committed to is no longer the one the snapshot was taken from", fMb.Name(), bad)
+			} else {
+				r.Ok(rule, cons, p.InstrPos(in), "written only in AUTHORIZATION state")
+			}
+		})
+	}
+	r.Floor(rule, "writers of the session's mailbox field", nW, 1)
 }
